@@ -72,26 +72,42 @@ def array_attributes(repo: Repo) -> Dict[str, List[str]]:
 class _Origins:
     def __init__(self, fi: FuncInfo, attrs: Dict[str, List[str]]):
         self.fi, self.attrs = fi, attrs
-        self.origin: Dict[str, Tuple[str, str]] = {}  # name -> (source text, attribute name | 'parameter')
+        self.origin: Dict[str, Tuple[str, str, str]] = {}  # name -> (source text, attribute name | 'parameter', 'array' | 'container' of such arrays)
         a = fi.node.args
         for p in a.posonlyargs + a.args + a.kwonlyargs:
             if _mentions_array(p.annotation):
-                self.origin[p.arg] = (f"the array parameter `{p.arg}`", "parameter")
+                self.origin[p.arg] = (f"the array parameter `{p.arg}`", "parameter", "array")
         self.found: List[Tuple[ast.AST, str, str, str, str]] = []
 
-    def classify(self, e: Optional[ast.AST]) -> Optional[Tuple[str, str]]:
+    def classify(self, e: Optional[ast.AST]) -> Optional[Tuple[str, str, str]]:
         if e is None:
             return None
         if isinstance(e, ast.Name):
             return self.origin.get(e.id)
         if isinstance(e, ast.Attribute):
             if e.attr in self.attrs:
-                return (norm(e), e.attr)
+                return (norm(e), e.attr, "array")
             if e.attr in _VIEW_ATTRS:
                 return self.classify(e.value)
             return None
         if isinstance(e, ast.Subscript):
-            return self.classify(e.value)  # basic indexing of an array gives a view; an element of a container of arrays is that array
+            o = self.classify(e.value)
+            if o is None:
+                return None
+            if o[2] == "container" and not isinstance(e.slice, ast.Slice):
+                return (f"{norm(e)} (an element of {o[0]})", o[1], "array")  # an element of a list of borrowed arrays is that array
+            return o  # basic indexing of an array gives a view; a slice of a container is a container of the same arrays
+        if isinstance(e, (ast.List, ast.Tuple)):
+            for x in e.elts:
+                o = self.classify(x)
+                if o is not None and o[2] == "array":
+                    return (f"[.. {o[0]} ..]", o[1], "container")
+            return None
+        if isinstance(e, (ast.ListComp, ast.GeneratorExp)):
+            o = self.classify(e.elt)
+            if o is not None and o[2] == "array":
+                return (f"[{o[0]} for ...]", o[1], "container")
+            return None
         if isinstance(e, ast.IfExp):
             return self.classify(e.body) or self.classify(e.orelse)
         if isinstance(e, ast.NamedExpr):
@@ -110,9 +126,21 @@ class _Origins:
         while isinstance(base, ast.Subscript):
             base = base.value
         if isinstance(target, ast.Name) or (isinstance(target, ast.Subscript) and isinstance(base, (ast.Name, ast.Attribute))):
-            o = self.classify(base) if not isinstance(target, ast.Name) else self.origin.get(target.id)
-            if o is not None:
-                self.found.append((node, norm(base), o[0], o[1], op))
+            if isinstance(target, ast.Name):
+                o = self.origin.get(target.id)
+                shown = target
+            else:
+                # x[i] op= v / x[i] = v : the object written is x (an array) - or the element x[i] when x is a container and the write is in place
+                o = self.classify(base)
+                shown = base
+                if o is not None and o[2] == "container":
+                    inner = target
+                    while isinstance(inner.value, ast.Subscript):
+                        inner = inner.value
+                    o = self.classify(inner) if (isinstance(node, ast.AugAssign) or inner is not target) else None
+                    shown = inner
+            if o is not None and o[2] == "array":
+                self.found.append((node, norm(shown), o[0], o[1], op))
 
     def visit(self, stmts: List[ast.stmt]) -> None:
         for st in stmts:
@@ -166,6 +194,9 @@ class _Origins:
                 for n in ast.walk(st.target):
                     if isinstance(n, ast.Name):
                         self.origin.pop(n.id, None)
+                it = self.classify(st.iter)
+                if it is not None and it[2] == "container" and isinstance(st.target, ast.Name):
+                    self.origin[st.target.id] = (f"an element of {it[0]}", it[1], "array")
                 before = dict(self.origin)
                 self.visit(st.body)
                 self.visit(st.orelse)
